@@ -195,6 +195,9 @@ where
     /// Initialize the radio for LoRa physical layer communications
     pub async fn init(&mut self) -> Result<(), RadioError> {
         self.cold_start = true;
+        // Whatever the chip was doing is over; until it is back in standby, treat it like a
+        // sleeping chip so that a failed init cannot leave a stale mode behind
+        self.radio_mode = RadioMode::Sleep;
         self.radio_kind.reset(&mut self.delay).await?;
         self.radio_kind.ensure_ready(self.radio_mode).await?;
         self.radio_kind.set_standby().await?;
